@@ -19,7 +19,7 @@ pub fn port_value(sweep: u64, i: u64) -> (u16, u16) {
 }
 
 pub fn run(rep: &mut Report, thorough: bool) {
-    rep.rule = "every reply-eliciting frame kind x source-MAC alphabet x IP address alphabets; all 65536 source ports x 4 destination ports and all 65536 destination ports x 4 source ports for TCP SYN, TCP data behind a valid cookie, UDP STUN, UDP STUN with CHANGE-REQUEST (dport+1 exception incl. 65535 -> 0), UDP HTTP; every reply checked against the mirror map of the statement".into();
+    rep.rule = "every reply-eliciting frame kind x source-MAC alphabet x IP address alphabets; all 65536 source ports x 4 destination ports and all 65536 destination ports x 4 source ports for TCP SYN, TCP data behind a valid cookie, UDP STUN, UDP STUN with CHANGE-REQUEST (dport+1 exception incl. 65535 -> 0), UDP HTTP; every reply checked against the mirror map of the statement; ADDED LATER: ND addressing (target x destination form x source x source MAC), TCP data port sweeps alternating HTTP and STUN change-port, depth-2 pair histories (nothing learned from one frame may redirect a later reply), all four list combinations".into();
     rep.assumptions = vec![
         "at most one reply per frame is structural: reply() returns an Option and the driver reports exactly that value".into(),
         "TCP data port sweeps build the acknowledgement from the harness's own SipHash guess of the cookie; the number of segments actually accepted is reported (cookie_guess_accepted)".into(),
